@@ -10,7 +10,7 @@ import ecc_util as eu
 
 LEAN_MODULES = ["Pff.Props.C13", "Pff.Props.C14"]
 PROP_MODULE = "Pff.Props.C13"
-THEOREMS = ["Pff.Ecc.C13_assemble_prefix_whole", "Pff.Ecc.C13_assemble_prefix_header", "Pff.Ecc.C13_loop_prefix", "Pff.Ecc.C13_length",
+THEOREMS = ["Pff.Ecc.C13_cut_block_safe", "Pff.Ecc.C13_assemble_prefix_whole", "Pff.Ecc.C13_assemble_prefix_header", "Pff.Ecc.C13_loop_prefix", "Pff.Ecc.C13_length",
             "Pff.Ecc.C04_length_header", "Pff.Ecc.C04_length_whole"]
 MODELLED = [("pyFileFixity/header_ecc.py", "main"), ("pyFileFixity/structural_adaptive_ecc.py", "main"),
             ("pyFileFixity/lib/aux_funcs.py", "get_next_entry")]
